@@ -94,7 +94,9 @@ def job_continuum(cfg):
         th, cs, sn = float(np.degrees(np.arctan2(0.8, 0.6))), Fraction(3, 5), Fraction(4, 5)
     else:
         th, cs, sn = oblig.angle("theta")
-    d = [c.var(f"d{i}", -1, 1) for i in range(3)]
+    # higher-order elements: sum of the float reference gradients is ~1e-17, not 0, so a symbolic translation would enter every Jacobian
+    # with noise coefficients (rational residuals with hundreds of denominators): enumerated dyadic translation with the "Rq" motion
+    d = [c.var(f"d{i}", -1, 1) for i in range(3)] if motion != "Rq" else [Fraction(1, 2), Fraction(-1, 4), Fraction(1, 8)]
     off = c.var("plane_offset", -1, 1)
     res.symbols = 6
     axis = (0, 0, 1) if dim == 2 else cfg.get("axis", (2, 3, 6))
@@ -116,6 +118,10 @@ def job_continuum(cfg):
             return Models.Thermal(k=2.5, c=1.2, thickness=0.7)
         if law == "iso":
             return Models.Elastic.Isotropic(dim, E=200.0, v=0.3, planeStress=True, thickness=0.7) if dim == 2 else Models.Elastic.Isotropic(3, E=200.0, v=0.3)
+        if law == "trans":
+            # plane-stress transversely isotropic ply: the 2-D stiffness is rebuilt from the ROTATED COMPLIANCE (inverse of its in-plane block)
+            return Models.Elastic.TransverselyIsotropic(2, 300.0, 120.0, 70.0, 0.2, 0.35, axis_l=ax1 if ax1 is not None else (1, 0, 0), axis_t=ax2 if ax2 is not None else (0, 1, 0),
+                                                        planeStress=cfg.get("planeStress", True), thickness=0.7)
         return make_aniso(dim, ax1 if ax1 is not None else (1, 0, 0), ax2 if ax2 is not None else (0, 1, 0))
 
     def simulation(mesh, mat):
@@ -143,8 +149,8 @@ def job_continuum(cfg):
         else:
             mesh.Translate(d[0], d[1], d[2] if dim == 3 else 0)
             mesh.Rotate(th, center, axis)
-        if law == "aniso" and sim != "thermal":
-            facade.OPAQUE_INV_FROM = 3
+        if law in ("aniso", "trans") and sim != "thermal":
+            facade.OPAQUE_INV_FROM = 4 if law == "trans" else 3
             mat1 = material(ax1=R[:, 0].copy(), ax2=R[:, 1].copy()) if motion != "S" else material(ax1=R[:, 0].copy(), ax2=R[:, 1].copy())
         else:
             mat1 = material()
@@ -180,7 +186,7 @@ def job_continuum(cfg):
             m2.Translate(fval(env, d[0]), fval(env, d[1]), fval(env, d[2]) if dim == 3 else 0)
             m2.Rotate(ang, center, axis)
             Rf = np.array([[float(as_sym(R[i, j]).eval({kk: float(v) for kk, v in {**c.shadow, **(env or {})}.items()})) for j in range(3)] for i in range(3)])
-        mat2 = material(ax1=Rf[:, 0].copy(), ax2=Rf[:, 1].copy()) if (law == "aniso" and sim != "thermal") else material()
+        mat2 = material(ax1=Rf[:, 0].copy(), ax2=Rf[:, 1].copy()) if (law in ("aniso", "trans") and sim != "thermal") else material()
         s2 = simulation(m2, mat2)
         Kf, Cf, Mf, _ = [x.toarray() for x in s2.Get_K_C_M_F()]
         Tf = np.eye(nn) if sim == "thermal" else np.kron(np.eye(nn), Rf[:dim, :dim])
@@ -367,6 +373,13 @@ def main():
     # 3-D anisotropic material: symbolic rotation about exactly representable axes (mirror images of a triclinic material cannot be
     # expressed through two axes, so reflections are checked with the isotropic law in 3-D)
     configs.append({"sim": "elastic", "elem": "TETRA4", "law": "aniso", "motion": "R", "axis": (0, 0, 1)})
+    # plane-stress ply (stiffness = inverse of the in-plane block of the rotated compliance): exact rational rotation (a symbolic angle through
+    # the 3x3 inverse gives rational functions of (c, s) of degree > 16; the law-level identity for all angles is C11's)
+    for motion in ("Rq", "S"):
+        configs.append({"sim": "elastic", "elem": "TRI3", "law": "trans", "motion": motion})
+    if tier == "thorough":
+        configs.append({"sim": "elastic", "elem": "TRI3", "law": "trans", "motion": "Rq", "planeStress": False})
+        configs.append({"sim": "elastic", "elem": "QUAD4", "law": "trans", "motion": "Rq"})
     if tier == "thorough":
         configs.append({"sim": "elastic", "elem": "TETRA4", "law": "aniso", "motion": "R", "axis": (1, 0, 0)})
         for et, law in (("TRI6", "aniso"), ("TRI6", "iso"), ("QUAD8", "aniso"), ("HEXA8", "iso"), ("PRISM6", "aniso"), ("TETRA10", "iso")):
